@@ -576,6 +576,9 @@ def run_bounded(run, ctx, b, known):
     if ans.get("error"):
         run.checker_errors.append(f"bounded script {b['name']} failed: {ans['error']}")
         return
+    if ans.get("enumerated", 0) + ans.get("random", 0) == 0:
+        run.checker_errors.append(f"bounded script {b['name']} evaluated no case (vacuous)")
+        return
     row = {"clause": b["name"], "scope": b.get("scope", ""), "enumerated": ans.get("enumerated", 0), "random": ans.get("random", 0),
            "failures": len(ans.get("failures", [])), "seconds": round(time.time() - t0, 2), "exhaustive": ans.get("exhaustive", False),
            "distinct": ans.get("distinct", ans.get("enumerated", 0) + ans.get("random", 0)), "property": run.pid}
